@@ -12,7 +12,8 @@ from ..common import Violation, drive, seed
 PID = 'C09'
 RULE = ('Hypothesis histories (whole history shrinks as one value): storage in {new pickle, new copy, from_list wu, '
         'cache() over a raw mutable upstream, cache(lazy=False), diskcache()} x container (list / dict) x payload '
-        '(nested dict with list, dict and numpy array; tuple with mutable members) x a sequence of steps: read by '
+        '(nested dict with list, dict and numpy array; tuple with mutable members; bare array; top-level object array '
+        'with mutable members; top-level 1 MiB array) x a sequence of steps: read by '
         'index / negative index / numpy index / key / slice-then-index / full iteration / items() / through copy() '
         '/ through a slice view, then mutate what was returned (set, append, delete, clear, nested, in-place array '
         'arithmetic), and for pickle / wu mutate the ORIGINAL container and its examples. Oracle: after every step a '
@@ -29,6 +30,7 @@ STORAGES = ['new_pickle', 'new_copy', 'wu', 'cache', 'cache_eager', 'diskcache']
 READS = ['idx', 'neg', 'np', 'key', 'slice', 'iter', 'items', 'copy', 'copyf', 'view', 'iter_mut', 'items_mut',
          'prefetch_twice']
 MUTS = ['set', 'append', 'del', 'clear', 'nested', 'array', 'array_scale']
+BIG = 131072
 
 
 def plan(tier):
@@ -38,6 +40,13 @@ def plan(tier):
 def make_example(kind, i):
     if kind == 'array':
         return np.arange(4, dtype=np.int64) + 10 * i
+    if kind == 'bigarray':
+        return np.arange(BIG, dtype=np.float64) + i  # a top-level array of exactly 1 MiB
+    if kind == 'objarray':
+        a = np.empty(2, dtype=object)  # a top-level object array: its members are ordinary mutable containers
+        a[0] = {'id': i, 'tags': ['a']}
+        a[1] = [i, i + 1]
+        return a
     if kind == 'dict':
         return {'id': i, 'tags': [i, i + 1], 'meta': {'k': [i], 'd': {'x': i}}, 'arr': np.arange(3) + i}
     return ([i, i + 1], {'lab': [i]}, 'x%d' % i, np.arange(2) + i)
@@ -60,6 +69,14 @@ def mutate(obj, kind):
     """Mutate an example (or an (key, example) pair) in place. Returns True if something was changed."""
     if isinstance(obj, tuple) and len(obj) == 2 and isinstance(obj[0], str):
         obj = obj[1]  # items() pair
+    if isinstance(obj, np.ndarray) and obj.dtype == object:
+        if kind in ('set', 'del', 'clear'):
+            obj[1] = 'replaced'
+        else:
+            obj[0]['tags'].append('first')
+            if isinstance(obj[1], list):
+                obj[1].append('first')
+        return True
     if isinstance(obj, np.ndarray):
         obj[0] = -99
         obj *= 2
@@ -317,7 +334,7 @@ def st_case(draw):
         else:
             steps.append(['read', draw(st.sampled_from(READS)), draw(st.integers(0, 7)),
                           draw(st.sampled_from(MUTS + [None]))])
-    return {'storage': storage, 'container': container, 'payload': draw(st.sampled_from(['dict', 'dict', 'tuple', 'array'])),
+    return {'storage': storage, 'container': container, 'payload': draw(st.sampled_from(['dict', 'dict', 'dict', 'tuple', 'tuple', 'array', 'objarray', 'bigarray'])),
             'n': n, 'steps': steps}
 
 
